@@ -6,6 +6,7 @@ import io
 import logging
 import os
 import random
+import time
 import re
 import sys
 
@@ -286,8 +287,27 @@ def _tnum(name):
     return int(name) if re.fullmatch(r"\d+", str(name)) else -1
 
 
+class _HelperMixin:
+    """a plain helper base class of a user's protocol (no callbacks of its own)"""
+    helper_range = 12.5
+
+    def describe(self):
+        return "helper"
+
+
+_TV_NAMES = ["count", "name", "message", "state", "args", "process", "msg", "levelname", "thread", "created"]
+
+
 class ScriptedProtocol(IProtocol):
     """Interprets the rule scripts of coq/Script.v."""
+
+    @classmethod
+    def instantiate(cls, provider):
+        protocol = super().instantiate(provider)
+        if (CTX.scenario or {}).get("early_controller"):
+            # a protocol class that overrides instantiate() builds its helpers there, right after it is given its provider
+            protocol._controller = CommunicationController(protocol)
+        return protocol
 
     def __init__(self):
         self.flag = False
@@ -299,6 +319,13 @@ class ScriptedProtocol(IProtocol):
         nid = self.provider.get_id()
         now = self.provider.current_time()
         CTX.trace.append("cb %d %s %s" % (nid, fhex(now), desc))
+        CTX.ncb = getattr(CTX, "ncb", 0) + 1
+        if CTX.scenario.get("slow_cb") == CTX.ncb:
+            time.sleep(0.12)                   # a callback that does real work: wall-clock time is not simulation time
+        tv = getattr(self.provider, "tracked_variables", None)
+        if tv is not None and getattr(CTX, "sim", None) is not None:
+            # what a protocol tracks is its own business, whatever the variables are called
+            tv[_TV_NAMES[(nid + self.counts[kind]) % len(_TV_NAMES)]] = self.counts[kind]
         if CTX.scenario.get("poll_inside") and getattr(CTX, "sim", None) is not None and kind != "finish":
             CTX.sim.is_simulation_done()       # asking whether the run is over does not end it
         if CTX.scenario.get("interloper"):
@@ -337,6 +364,18 @@ class ScriptedProtocol(IProtocol):
             except ValueError:
                 res = "errvalue"
             CTX.trace.append("act %d %s %s" % (nid, _act_str(a), res))
+        if CTX.scenario.get("readback"):
+            # the protocol keeps part of its state in its tracked variables and reads it back: get-or-create, counters,
+            # pop / update / iteration -- and what it reads decides its next request
+            tv = self.provider.tracked_variables
+            seen = tv.setdefault("seen", [])
+            seen.append(kind)
+            n = tv.get("rounds", 0) + 1
+            tv.update(rounds=n)
+            last = tv.pop("last", "none")
+            tv["last"] = kind
+            self.provider.schedule_timer("seen%d-%d-%s-%d-%s" % (len(seen), n, last, len(tv), "+".join(sorted(str(x) for x in tv))),
+                                         now + 1.0)
         hook = getattr(CTX, "after_fire", None)
         if hook is not None:
             hook(self)
@@ -416,11 +455,14 @@ class ScriptedProtocol(IProtocol):
         elif k == "speed":
             p.send_mobility_command(SetSpeedMobilityCommand(_num(a[1])))
         elif k == "range":
-            if CTX.scenario.get("two_controllers"):
+            if CTX.scenario.get("two_controllers") and not CTX.scenario.get("early_controller"):
                 # the protocol's own controller and a helper's: two kept objects, used alternately
                 pair = self.__dict__.setdefault("_controllers", [CommunicationController(self), CommunicationController(self)])
                 self._turn = getattr(self, "_turn", 0) + 1
                 pair[self._turn % 2].set_transmission_range(_num(a[1]))
+                return
+            if CTX.scenario.get("early_controller") and self._controller is not None:
+                self._controller.set_transmission_range(_num(a[1]))
                 return
             if self._controller is None or CTX.scenario.get("fresh_controllers"):
                 # (in that mode) a new controller object for every request, as code that builds one on the spot does
@@ -596,9 +638,15 @@ def make_recorder(j):
         def initialize(self):
             CTX.trace.append("hinit %d" % j)
 
-        def after_simulation_step(self, iteration, timestamp):
-            _guard()
-            CTX.trace.append("hafter %d %d %s" % (j, iteration, fhex(timestamp)))
+        # the interface fixes the order of the two arguments, not what an override calls them
+        if j % 4 == 0:
+            def after_simulation_step(self, step, now):
+                _guard()
+                CTX.trace.append("hafter %d %d %s" % (j, step, fhex(now)))
+        else:
+            def after_simulation_step(self, *args):
+                _guard()
+                CTX.trace.append("hafter %d %d %s" % (j, args[0], fhex(args[1])))
 
         def finalize(self):
             CTX.trace.append("hfinal %d" % j)
@@ -687,6 +735,7 @@ def run_sim_impl(sc, variant=None):
     CTX.scenario, CTX.trace, CTX.draws = sc, [], 0
     CTX.sim = None
     CTX.fired = 0
+    CTX.ncb = 0
     CTX.kept_telemetry = []
     orig_random = random.random
     stream = sc.get("stream")
@@ -731,7 +780,13 @@ def run_sim_impl(sc, variant=None):
             def add_nodes():
                 ids = []
                 for nd in sc["nodes"]:
-                    ids.append(b.add_node(PROTO[nd["ty"]], tuple(_num(float(v)) for v in nd["pos"])))
+                    cls = PROTO[nd["ty"]]
+                    if sc.get("late_classes"):
+                        # the concrete protocol class is defined in the scenario script, long after the module that states
+                        # the assertions about its base class was imported
+                        # (every second one with a helper mixin listed before the protocol base)
+                        cls = type(cls.__name__, (_HelperMixin, cls) if len(ids) % 2 else (cls,), {})
+                    ids.append(b.add_node(cls, tuple(_num(float(v)) for v in nd["pos"])))
                 if ids != list(range(len(ids))):
                     CTX.trace.append("ids %s" % ids)
             if sc.get("nodes_first"):
